@@ -22,7 +22,8 @@ META = {
             "the unique sorted permutation of the tallies under the repaired VoteList.Less (strict total order, proved) while the comparator "
             "at HEAD is refuted (F10 witness); voting-power buckets on disk mirror memory after every apply and are ordered by account id; "
             "the literal clauses 'balance = total' (F19) and 'memory vpr = reload' under discarded executions (F12) are refuted by witnesses; "
-            "names: one owner per name, created only for >= price when free, updated only by the owner. "
+            "names: one owner per name, created only for >= price when free, updated only by the owner; the stored ranking bytes round-trip. "
+            "Refuted with witnesses: memory = reload for system parameters after a negative parameter vote (new finding). "
             "The model is tied to /repo on every run: the real contract/system and contract/name code is driven over generated multi-account "
             "histories across the lock periods and the model must reproduce every observable after every transaction.",
     "note": "Trusted: Coq kernel/vm_compute; engines + generator; the engine replays chain.executeTx's handling of a governance tx "
